@@ -6,6 +6,9 @@
 (*     TLS blocks, auth, rules, metrics, access log, timeouts, io parameters) x mutation operators.    *)
 (*     TLC enumerates the table; the harness applies each row to the reference document and runs the   *)
 (*     real loading sequence (in-process, and through `--test` of the real binary for a sample).       *)
+(*     The access-log format additionally takes script formats (operator "logscript"): valid, failing   *)
+(*     at every evaluation, failing only for some traffic (division / index depending on the target);   *)
+(*     whatever is accepted is started and must survive traffic that makes the script fail.             *)
 (* (2) Load-balancer reference graphs: every digraph over three load balancers and one leaf            *)
 (*     connector; a graph is Safe iff no cycle is reachable from any load balancer; a configuration      *)
 (*     whose graph is not Safe must be rejected (a request routed into a cycle never finishes).         *)
@@ -28,10 +31,12 @@ Paths == {
 
 Ops == [ delete |-> {"-"},
          retype |-> {"string", "int", "negint", "bool", "list", "map", "null", "float"},
+         logscript |-> {"valid", "evalfail_always", "const_div0", "traffic_dependent_div", "traffic_dependent_index", "nonstring", "syntax"},
          value  |-> {"empty", "unknown_type", "deny", "huge", "bad_addr", "bad_port", "bad_path", "bad_script", "nonbool_script", "unknown_ref", "self_ref", "dup_name", "nul"} ]
 Rows == {<<p, o, x>> \in Paths \X (DOMAIN Ops) \X {"-", "string", "int", "negint", "bool", "list", "map", "null", "float", "empty", "unknown_type", "deny",
-                                                  "huge", "bad_addr", "bad_port", "bad_path", "bad_script", "nonbool_script", "unknown_ref", "self_ref", "dup_name", "nul"} :
-           x \in Ops[o]}
+                                                  "huge", "bad_addr", "bad_port", "bad_path", "bad_script", "nonbool_script", "unknown_ref", "self_ref", "dup_name", "nul",
+                                                  "valid", "evalfail_always", "const_div0", "traffic_dependent_div", "traffic_dependent_index", "nonstring", "syntax"} :
+           x \in Ops[o] /\ ((o = "logscript") <=> (p = "accessLog.format"))}
 AllowedLoad == {"accepted", "rejected"}        \* "panic", "hang", a signal: violations
 
 (* ---- load-balancer graphs ---- *)
